@@ -17,8 +17,8 @@ from props import _fitcommon as fc
 ID = 'C11'
 LEVEL = 'model_checking'
 TECHNIQUE = 'exhaustive enumeration of permutations / constants (paired executions) and explicit-state exploration of fit histories on one real Fitter with canonical-state comparison'
-LEVEL_TEXT = ('All permutations of up to 4 (quick) / 6 (thorough) filters and of up to 4 (quick) / 5 (thorough, files) / 8 (thorough, in-memory Models) models, seven '
-              'brightness constants over 8 decades, and every sequence of up to 3 fits over a 6-source alphabet (every permutation of the 6 in thorough) on one '
+LEVEL_TEXT = ('All permutations of up to 4 (quick) / 6 (thorough) filters and of up to 4 (quick) / 5 (thorough, files) / 8 (thorough, in-memory Models) models, ten '
+              'brightness constants over 15 decades, and every sequence of up to 3 fits over a 6-source alphabet (every permutation of the 6 in thorough) on one '
               'Fitter in each format/mode: permuted runs must give the same per-model results, constants must shift scale by -0.5 log10 c exactly and leave A_V '
               'and chi^2, each fit in a history must equal the fresh-fitter result bit for bit, and neither the fitter state nor the source may change.')
 LEVEL_NOTE = ('Finite value alphabets; sums reorder under permutation, so permuted results are compared to 1e-10 (float32 path: propagated bound) rather than bit-wise; '
@@ -31,7 +31,7 @@ REQUIRED_CLASSES = ['both-limit-kinds-different-confidence', 'filter-perm', 'mod
 TIMEOUT = {'quick': 600, 'thorough': 3000}
 
 VARIANTS = [('v1', False), ('v2', True), ('v2', False)]
-CONSTS = [1e-4, 1e-2, 0.5, 2.0, 10.0, 1e3, 1e4]
+CONSTS = [1e-8, 1e-6, 1e-4, 1e-2, 0.5, 2.0, 10.0, 1e3, 1e4, 1e7]
 SRC_FLAGS = [(1, 1, 1, 1), (1, 4, 3, 1), (4, 4, 4, 4), (1, 0, 1, 2), (9, 1, 1, 1), (1, 1, 3, 3)]
 B4 = ['B1', 'B2', 'B3', 'B5']
 
